@@ -90,6 +90,55 @@ SCHEMA_LAYOUTS = [
 ]
 
 
+# ---- a real tree (written to a temp dir); directory and file names use URL-neutral specials
+_D1 = 'dir a [1]~+&;\u00e9'
+_D2 = 'other.d'
+_SCH = '<schema extends="base~+&amp;;x.xml"><import src="sub s/t [2].xml"/><multikey name="kc"/><key name="k1"/></schema>'
+TREE_FILES = {
+    _D1 + '/schema.xml': _SCH,
+    _D1 + '/base~+&;x.xml': '<schema><key name="kbase"/></schema>',
+    _D1 + '/sub s/t [2].xml': '<schema><sectiontype name="tt"/></schema>',
+    _D1 + '/main.conf': 'kc d1-main\n%include sub s/inc [3].conf\n%include ../shared+&;.conf\n',
+    _D1 + '/sub s/inc [3].conf': 'kc d1-inc\n%include ../~x.conf\n',
+    _D1 + '/~x.conf': 'kc d1-tilde\n',
+    _D1 + '/~/t.conf': 'kc d1-tildedir\n',
+    'shared+&;.conf': 'kc root-shared\n',
+    # a second directory in which the SAME relative strings name different files
+    _D2 + '/schema.xml': '<schema><multikey name="kc"/><key name="k2"/></schema>',
+    _D2 + '/main.conf': 'kc d2-main\n%include sub s/inc [3].conf\n',
+    _D2 + '/sub s/inc [3].conf': 'kc d2-inc\n',
+    _D2 + '/~/t.conf': 'kc d2-tildedir\n',
+}
+_K1 = ['k1', 'kbase', 'kc']
+_M1 = ['d1-main', 'd1-inc', 'd1-tilde', 'root-shared']
+_M2 = ['d2-main', 'd2-inc']
+# (name, [(how, cwd, target[, literal relative string])], expected observations)
+TREE_CASES = [
+    ('four-ways', [('abs', '.', _D1 + '/schema.xml'), ('abs', '.', _D1 + '/main.conf'),
+                   ('rel', '.', _D1 + '/main.conf'), ('rel', _D1, _D1 + '/main.conf'),
+                   ('rel', _D2, _D1 + '/main.conf'), ('url', _D2, _D1 + '/main.conf'),
+                   ('fileabs', _D2, _D1 + '/main.conf'), ('filerel', _D1, _D1 + '/main.conf'),
+                   ('filerel', _D2, _D1 + '/main.conf')],
+     [_K1] + [_M1] * 8),
+    ('schema-four-ways', [('rel', _D1, _D1 + '/schema.xml'), ('url', '.', _D1 + '/schema.xml'),
+                          ('fileabs', _D2, _D1 + '/schema.xml'), ('filerel', _D1 + '/sub s', _D1 + '/schema.xml'),
+                          ('rel', '.', _D1 + '/schema.xml')],
+     [_K1] * 5),
+    # the identical relative string used again after a chdir names another file
+    ('chdir-same-string', [('rel', _D1, _D1 + '/schema.xml', 'schema.xml'), ('rel', _D1, _D1 + '/main.conf', 'main.conf'),
+                           ('rel', _D2, _D2 + '/schema.xml', 'schema.xml'), ('rel', _D2, _D2 + '/main.conf', 'main.conf'),
+                           ('filerel', _D1, _D1 + '/schema.xml', 'schema.xml'), ('filerel', _D1, _D1 + '/main.conf', 'main.conf'),
+                           ('filerel', _D2, _D2 + '/schema.xml', 'schema.xml'), ('filerel', _D2, _D2 + '/main.conf', 'main.conf'),
+                           ('rel', _D1, _D1 + '/schema.xml', 'schema.xml'), ('rel', _D1, _D1 + '/main.conf', 'main.conf')],
+     [_K1, _M1, ['k2', 'kc'], _M2, _K1, _M1, ['k2', 'kc'], _M2, _K1, _M1]),
+    # a relative path whose first component is '~'
+    ('tilde-dir', [('abs', '.', _D2 + '/schema.xml'), ('rel', _D1, _D1 + '/~/t.conf', '~/t.conf'),
+                   ('rel', _D2, _D2 + '/~/t.conf', '~/t.conf'), ('filerel', _D1, _D1 + '/~/t.conf', '~/t.conf'),
+                   ('rel', _D1, _D1 + '/~x.conf', '~x.conf')],
+     [['k2', 'kc'], ['d1-tildedir'], ['d2-tildedir'], ['d1-tildedir'], ['d1-tilde']]),
+]
+
+
 class C18(Harness):
     prop = 'C18'
     domain = 'D'
@@ -105,7 +154,10 @@ class C18(Harness):
              'urllib urljoin is run natively with an empty base, where it returns its argument')
     assumptions = (
         'REDUCED SCOPE: the agreement of path / relative path / file: URL / open-file entry points on real '
-        'directory layouts, working directories and file names is NOT covered (C-level os and urllib I/O)',
+        'directory layouts, working directories and file names is NOT decided by the solver (C-level os '
+        'and urllib I/O cannot take symbolic values); a CONCRETE supplement runs 4 scenario sequences on one '
+        'real temp tree (names with space [ ] ~ + & ; and a non-ASCII letter, 3 working directories, the same '
+        'relative string re-used after chdir) - enumeration, not a bounded-exhaustive claim',
         'strings ending in "#" are excluded from normalizeURL (empty fragment: urlunparse re-assembly)',
         'characters over domain D; lower() of characters outside D is excluded',
     )
@@ -138,7 +190,7 @@ class C18(Harness):
             us.append({'fn': 'urlnormalize', 'len': L, 'prefix': 'file://'})
             us.append({'fn': 'normalizeURL', 'len': L, 'prefix': 'file:/'})
             us.append({'fn': 'normalizeURL', 'len': L, 'prefix': 'http://h/a'})
-        return us + self.incl_units(tier) + self.schemaref_units(tier)
+        return us + self.incl_units(tier) + self.schemaref_units(tier) + self.tree_units(tier)
 
     # ---- %include references through the loader (instrumented urljoin / urldefrag)
     def incl_units(self, tier):
@@ -148,6 +200,9 @@ class C18(Harness):
                     (('', 2), ('a', 2), ('../', 1), ('', 3), ('a', 3), ('s/', 2), ('./', 2), ('', 4)):
                 us.append({'fn': 'include', 'where': where, 'prefix': pre, 'len': n})
         return us
+
+    def tree_units(self, tier):
+        return [{'fn': 'tree', 'case': i, 'len': 1} for i in range(len(TREE_CASES))]
 
     def schemaref_units(self, tier):
         return [{'fn': 'schemaref', 'layout': i, 'len': 1} for i in range(len(SCHEMA_LAYOUTS))]
@@ -196,6 +251,8 @@ class C18(Harness):
             return self._include(unit, s)
         if fn == 'schemaref':
             return self._schemaref(unit)
+        if fn == 'tree':
+            return self._tree(unit)
 
         def defrag(u):
             i = u.find('#')
@@ -252,6 +309,65 @@ class C18(Harness):
         if r[0] == 'reject':
             return ('reject',)
         return ('crash', r[1])
+
+    def _tree(self, unit):
+        """CONCRETE supplement (no symbolic input, one path per case): a real directory tree under a
+        temp dir with file names made of URL-neutral special characters; the same resource named by
+        absolute path, by path relative to several working directories (also the SAME relative string
+        after a chdir to a directory where it names another file), by file: URL and as an open file
+        object with an absolute or a relative name; includes / extends / import src inside"""
+        import os
+        import shutil
+        import tempfile
+        import urllib.request
+        import ZConfig
+        name, steps, _ = TREE_CASES[unit['case']]
+        root = os.path.realpath(tempfile.mkdtemp(prefix='vfc18_'))
+        cwd0 = os.getcwd()
+        out = []
+        try:
+            for rel, text in TREE_FILES.items():
+                p = os.path.join(root, rel)
+                os.makedirs(os.path.dirname(p), exist_ok=True)
+                open(p, 'w', encoding='utf-8').write(text)
+            schema = None
+            for step in steps:
+                how, cwd, target = step[0], step[1], step[2]
+                os.chdir(os.path.join(root, cwd))
+                ab = os.path.join(root, target)
+                relp = os.path.relpath(ab, os.path.join(root, cwd)) if len(step) < 4 else step[3]
+                try:
+                    if target.endswith('.xml'):
+                        if how == 'abs':
+                            sch = ZConfig.loadSchema(ab)
+                        elif how == 'rel':
+                            sch = ZConfig.loadSchema(relp)
+                        elif how == 'url':
+                            sch = ZConfig.loadSchema('file://' + urllib.request.pathname2url(ab))
+                        else:
+                            with open(ab if how == 'fileabs' else relp, encoding='utf-8') as f:
+                                sch = ZConfig.loadSchemaFile(f)
+                        schema = sch
+                        out.append(sorted(k for k, i in sch if k))
+                    else:
+                        if how == 'abs':
+                            cfg, _ = ZConfig.loadConfig(schema, ab)
+                        elif how == 'rel':
+                            cfg, _ = ZConfig.loadConfig(schema, relp)
+                        elif how == 'url':
+                            cfg, _ = ZConfig.loadConfig(schema, 'file://' + urllib.request.pathname2url(ab))
+                        else:
+                            with open(ab if how == 'fileabs' else relp, encoding='utf-8') as f:
+                                cfg, _ = ZConfig.loadConfigFile(schema, f)
+                        out.append(list(cfg.kc))
+                except ZConfig.ConfigurationError as e:
+                    out.append('reject:' + type(e).__name__)
+                except Exception as e:
+                    out.append('crash:' + type(e).__name__)
+        finally:
+            os.chdir(cwd0)
+            shutil.rmtree(root, ignore_errors=True)
+        return ('ok', out)
 
     def _schemaref(self, unit):
         """schema 'extends' / '<import src>' references written inside a base or imported schema that
@@ -332,6 +448,8 @@ class C18(Harness):
             return self._include_expect(unit, s)
         if fn == 'schemaref':
             return ('ok', SCHEMA_LAYOUTS[unit['layout']][2])
+        if fn == 'tree':
+            return ('ok', TREE_CASES[unit['case']][2])
         if fn == 'urlnormalize':
             return ('ok', ref_urlnormalize(s))
         if fn == 'urljoin':
